@@ -72,6 +72,15 @@ let show_struct (st: strukt) : Stdlib.String.t =
   Printf.sprintf "name=%s named=%d attrs=[ %s] generics=[ %s] fields=[ %s]" (show_opt_name st.s_name) (if st.s_named then 1 else 0) (show_attrs st.s_attrs)
     (String.concat "" (List.map (fun g -> show_generic g ^ " ") st.s_generics))
     (String.concat "" (List.map (fun f -> Printf.sprintf "{ [ %s] %s %s } " (show_attrs f.f_attrs) (show_opt_name f.f_name) (show_ty f.f_ty)) st.s_fields))
+let show_interp (a: atok list list) : Stdlib.String.t =
+  let b x = if x then 1 else 0 in
+  let ms = function KeyOnly -> "key_only" | KeyAndValue -> "key_and_value" in
+  let coll = match attrs_collection_type a with None -> "-" | Some OrderedArrayLike -> "ordered" | Some UnorderedArrayLikeHash -> "unordered" | Some (UnorderedMapLikeHash m) -> "map:" ^ ms m in
+  let map = match attrs_map_strategy a with None -> "-" | Some m -> ms m in
+  let ((local, skip_s), name) = attrs_setter a in
+  let expose = match attrs_expose a with None -> "-" | Some None -> "yes" | Some (Some t) -> "as:" ^ show_atok t in
+  Printf.sprintf "skip=%d recurse=%d all_setters=%d coll=%s map=%s setter=%d skip_setter=%d setter_name=%s expose=%s" (b (attrs_skip a)) (b (attrs_recurse a)) (b (attrs_all_setters a))
+    coll map (b local) (b skip_s) (match name with None -> "-" | Some t -> show_atok t) expose
 (* the HashSet pass over bounds: duplicates removed (order is normalised by sorting on both sides) *)
 let rec nodup = function [] -> [] | x :: r -> x :: nodup (List.filter (fun y -> y <> x) r)
 let rec depth_tt l = List.fold_left (fun acc t -> acc + (match t with TG (_, inner) -> 1 + depth_tt inner | _ -> 1)) 0 l
@@ -92,7 +101,13 @@ let () =
     | "ITEM" :: name :: "TOKENS" :: toks ->
       let (tts, _) = parse_tt toks in
       let fuel = nat_of_int (depth_tt tts + 8) in
-      let r = match parse_data nodup nodup fuel tts with
+      let pd = parse_data nodup nodup fuel tts in
+      let r = match pd with
         | Ok (st, _) -> show_struct st | Panic -> "PANIC" | Unsup -> "UNSUP" | Fuel -> "FUEL" in
-      Printf.printf "ITEM %s PARSED %s\n" name r
+      Printf.printf "ITEM %s PARSED %s\n" name r;
+      (match pd with
+       | Ok (st, _) ->
+           Printf.printf "ITEM %s INTERP %s\n" name (show_interp st.s_attrs);
+           List.iteri (fun k f -> Printf.printf "ITEM %s FINTERP%d %s\n" name k (show_interp f.f_attrs)) st.s_fields
+       | _ -> ())
     | _ -> ())
